@@ -202,13 +202,12 @@ var shapes = map[string]shape{
 	"1":            {piece: 1},
 	"1+eof":        {piece: 1, eofData: true},
 	"half":         {piece: 2},
-	"half+eof":     {piece: 2, eofData: true},
 	"stutter1+eof": {piece: 1, eofData: true, stutter: true},
 }
 
 func shapeNames(thorough bool) []string {
 	if thorough {
-		return []string{"all+eof", "1", "1+eof", "half", "half+eof", "stutter1+eof"}
+		return []string{"all+eof", "1", "1+eof", "half", "stutter1+eof"}
 	}
 	return []string{"all+eof", "1", "1+eof"} // with "": {everything that fits, one byte} x {separate io.EOF, attached io.EOF}
 }
@@ -511,7 +510,7 @@ func TestCheck(t *testing.T) {
 		"len 1..size+2, read buffer 1|512) + pass-through GetRange forms + Get (full with buffer 1|512, partial) + Exists + Attributes on the existing and a missing object + " +
 		"Iter (root, root recursive; thorough also a directory); every transition in which the caching bucket opens a reader of the underlying bucket is executed once per read " +
 		"behaviour of those readers ({everything that fits per Read (bytes.Reader as is), one byte per Read} x {io.EOF from an extra Read, io.EOF together with the last bytes}; " +
-		"thorough also half of the buffer per Read with either EOF and (0,nil) reads in between); environment = evict any one entry; non-trivial = distinct (configuration, state) with at least one but not all " +
+		"thorough also half of the buffer per Read, and one byte per Read with attached io.EOF and a (0,nil) Read before every piece); environment = evict any one entry; non-trivial = distinct (configuration, state) with at least one but not all " +
 		"sub-ranges of the object cached (partial hits); states/transitions/traces are counted by the search")
 	r.Assume("Objects never change; the underlying bucket is objstore.InMemBucket behind a wrapper that only changes HOW its readers deliver the same bytes (piece sizes, position of io.EOF, "+
 		"(0,nil) reads - all legal per the io.Reader contract); one cache instance serves all operation configs (as SetCacheImplementation does); TTLs are 24h and the "+
